@@ -92,6 +92,20 @@ def judge(op: Any) -> None:
                 bad(t, 'A.I does not act as A.T')
 
 
+def judge_boundary(op: Any) -> None:
+    """An operator accepted at the rejection boundary: its tags are checked on what mv really does."""
+    import jax
+    cls = type(op).__name__
+    tags = [t for t, v in declared(op).items() if v]
+    x = gen.rand_input(np.random.default_rng(0), op.in_structure())
+    y = op.mv(x)
+    LOG.evaluated('C08.tags')
+    if [tuple(l.shape) for l in jax.tree.leaves(y)] != [tuple(l.shape) for l in jax.tree.leaves(x)]:
+        LOG.violation('C08', 'C08.tags', f'{cls}/boundary/{"+".join(tags)}',
+                      'an operator that changes the shape of its input was constructed and is tagged ' + ', '.join(tags),
+                      expr=dense.describe(op), out=[list(l.shape) for l in jax.tree.leaves(y)])
+
+
 def case(rng: Any, ctx: Ctx, index: int) -> None:
     s, op = rand_operator(rng, ctx, atoms=0.7, lazy_inverse=False)
     # visit the operator and every operator nested in it (each instance judged once)
@@ -126,6 +140,32 @@ def case(rng: Any, ctx: Ctx, index: int) -> None:
         o2 = gen.a_toast(rng, st)
     if o2 is not None:
         guarded('C08.tags', lambda: judge(o2))
+    # composites made only of symmetric-tagged operators (a product of symmetric matrices is not symmetric)
+    leafs = [k for k in ('v3', 'v4', 'm23', 'm22', 't213') if k in u]
+    st2 = u[gen.pick(rng, leafs)]
+    parts = [gen.atom(rng, st2, only=('diagonal', 'toeplitz', 'homothety', 'identity')) for _ in range(int(rng.integers(2, 4)))]
+    if all(dense.struct_eq(p.out_structure(), st2) for p in parts):
+        comp = gen.combine(rng, parts) if rng.integers(2) else parts[0] + parts[1]
+        LOG.count('C08.composite', type(comp).__name__)
+        guarded('C08.tags', lambda: judge(comp))
+    # the rejection boundary: parameters the library refuses must not yield a tagged operator if accepted
+    from furax._base.diagonal import DiagonalOperator
+    import jax.numpy as jnp
+    dt = gen.data_dtype(st2)
+    probes = [
+        (jnp.arange(1, 4, dtype=dt), -1, gen.S((1,), dt)),                       # stretches a length-1 axis
+        (jnp.arange(1, 4, dtype=dt), 0, gen.S((1, 4), dt)),
+        (jnp.ones((2, 3), dt), -1, gen.S((3,), dt)),                              # adds a dimension
+        (jnp.ones((1,), dt), 1, gen.S((4,), dt)),                                 # unit value beyond the right edge
+    ]
+    vals, axis, st3 = probes[int(rng.integers(len(probes)))]
+    try:
+        bad = DiagonalOperator(vals, axis_destination=axis, in_structure=st3)
+    except ValueError:
+        LOG.count('C08.boundary-probe', 'refused')
+    else:
+        LOG.count('C08.boundary-probe', 'accepted')
+        guarded('C08.tags', lambda: judge_boundary(bad))
     LOG.sample({'expr': dense.describe(op), 'tags': {k: v for k, v in declared(op).items() if v}})
 
 
